@@ -454,7 +454,12 @@ def run(ctx):
                        "pairs, characters, quoted bignums, fold results that are #f), cond/and/or/when/unless, exact division; the dump keeps the kind "
                        "(I/L/B) and must equal the kind-exact model Kinded.ksimplify; the pass runs inside with-exception-handler + parameterize and the "
                        "observed handler calls / parameter value must equal the model's (none / unchanged); 100 eval/load-under-handler programs "
-                       "(10 dynamic-context families x 8 code shapes x 14 raising folds, dead and live) on four builds = R7RS oracle.")
+                       "(10 dynamic-context families x 8 code shapes x 14 raising folds, dead and live) on four builds = R7RS oracle.  "
+                       "Round 3: procedures with rest parameters called with several argument counts, pairs / vectors built and read (third SPEC interpreter Sem3); "
+                       "lets with rest parameters with exactly / more than the fixed count; operators that only become lambdas by simplification (9 tower shapes, nested) "
+                       "against the exact-pass-order model Kinded2.ksimpN; bare rest lambdas whose uses / assignments of the rest parameter are removed, kept or absent: "
+                       "procedure-flags of the compiled procedure = Rest.rest_unused on the optimised dump; the registered optimisation list of each binary; "
+                       "the programs of the C03 / C05 generators under the four builds.")
     from gen import c09_luint
     dirs, errs = _builds(ctx)
     d_custom = dirs.get("customll") or os.path.join(B.SCRATCH, "customll-%s" % B.source_hash())
